@@ -541,9 +541,11 @@ impl<'a> UserModel<'a> {
             row += 1;
         }
         self.push_diff_list(diff_list);
-        // select the pasted area
-        self.set_selected_range(area.row, area.column, row - 1, last_column)?;
         self.evaluate_if_not_paused();
+        // Select the pasted area. The paste itself is complete and recorded at this point: a
+        // selection that cannot be moved (the selected cell is not a corner of the pasted area)
+        // must not turn it into an error
+        let _ = self.set_selected_range(area.row, area.column, row - 1, last_column);
         Ok(())
     }
 }
